@@ -85,7 +85,7 @@ func c08Election(c *core.Ctx) {
 			nt, ok := t.(*types.Named)
 			return ok && p.ObjName(nt.Obj()) == "inter/pos.Validators"
 		}
-		nElec := 0
+		nElec, nNew := 0, 0
 		for _, f := range all {
 			if !owner[f] {
 				continue
@@ -114,11 +114,11 @@ func c08Election(c *core.Ctx) {
 				return nil
 			}
 			// where the validators argument of an election site is read from the store (the point of the read)
-			storeRead := func(r *core.CallSite) (core.Point, bool) {
-				if len(r.Call.Args) == 0 {
+			storeRead := func(src ast.Expr) (core.Point, bool) {
+				if src == nil {
 					return core.Point{}, false
 				}
-				e := resolveLocal(f, r.Call.Args[0])
+				e := resolveLocal(f, src)
 				var call *ast.CallExpr
 				if cl, ok := e.(*ast.CallExpr); ok && calleeName(f, cl) == "abft.Store.GetValidators" {
 					call = cl
@@ -152,6 +152,13 @@ func c08Election(c *core.Ctx) {
 				t := f.Info().TypeOf(l)
 				return t != nil && types.Identical(t, types.Universe.Lookup("error").Type())
 			})
+			// the variables handed to a write site are recognised by identity, not looked through
+			var keep []*types.Var
+			for _, w := range writes {
+				if pv := persisted(w); pv != nil {
+					keep = append(keep, pv)
+				}
+			}
 			for _, w := range writes {
 				pv := persisted(w)
 				var agree []core.Point
@@ -159,23 +166,35 @@ func c08Election(c *core.Ctx) {
 					if len(r.Call.Args) == 0 {
 						continue
 					}
-					if rp, ok := storeRead(r); ok {
-						// the read sees what w persisted only if it cannot precede w
-						if rp == w.Pt || !f.CanReach(rp, w.Pt) {
-							agree = append(agree, r.Pt)
+					// the validators handed to the election may be held in a local that is assigned on several
+					// branches: every definition that can reach the site on a run through w has to agree
+					okAll, n := true, 0
+					for _, d := range c08reaching(f, r.Call.Args[0], r.Pt, keep...) {
+						if !c08sameRun(f, d, w.Pt) {
+							continue
 						}
-						continue
-					}
-					if v := varOf(f, r.Call.Args[0]); v != nil && v == pv {
-						same := true // not reassigned between the write and the reset
+						n++
+						if rp, ok := storeRead(d.E); ok {
+							// the read sees what w persisted only if it cannot precede w
+							if !(rp == w.Pt || !f.CanReach(rp, w.Pt)) {
+								okAll = false
+							}
+							continue
+						}
+						v := varOf(f, d.E)
+						if v == nil || v != pv {
+							okAll = false
+							continue
+						}
+						// not reassigned between the write and the point where the value is taken (either order)
 						for _, a := range assignsToVar(f, v) {
-							if f.CanReach(w.Pt, a.Pt) && f.CanReach(a.Pt, r.Pt) {
-								same = false
+							if f.CanReach(w.Pt, a.Pt) && f.CanReach(a.Pt, d.Pt) || f.CanReach(d.Pt, a.Pt) && f.CanReach(a.Pt, w.Pt) {
+								okAll = false
 							}
 						}
-						if same {
-							agree = append(agree, r.Pt)
-						}
+					}
+					if okAll && n > 0 {
+						agree = append(agree, r.Pt)
 					}
 				}
 				wit, found := core.PathQuery{F: f, From: w.Pt, FromAfter: true, Avoid: core.PointSet(agree...), AvoidEdge: errEdge, TargetExit: true}.Find()
@@ -184,31 +203,83 @@ func c08Election(c *core.Ctx) {
 					name+" persists a new epoch state ("+short(w.Name)+") and can return without resetting the election with it: the running instance keeps electing with the previous validators while a restarted one builds the election from the persisted ones; path "+f.DescribePath(wit))
 			}
 			for _, r := range elec {
-				nElec++
+				if r.Name == "abft/election.New" {
+					nNew++
+				} else {
+					nElec++
+				}
 				if len(r.Call.Args) == 0 {
 					continue
 				}
-				if _, ok := storeRead(r); ok {
-					continue // decided from the write's side above
-				}
-				v := varOf(f, r.Call.Args[0])
-				if v == nil {
-					c.Undecided(name+"|validators of "+short(r.Name), "provenance", r.Pos(), "the validators argument "+exprStr(r.Call.Args[0])+" is neither read from the store nor a variable")
-					continue
-				}
-				var before []core.Point
-				for _, w := range writes {
-					if persisted(w) == v {
-						before = append(before, w.Pt)
+				for _, d := range c08reaching(f, r.Call.Args[0], r.Pt, keep...) {
+					if _, ok := storeRead(d.E); ok {
+						continue // decided from the write's side above
 					}
+					v := varOf(f, d.E)
+					if v == nil {
+						c.Undecided(name+"|validators of "+short(r.Name), "provenance", r.Pos(), "the validators argument "+exprStr(r.Call.Args[0])+" (value "+exprStr(d.E)+") is neither read from the store nor a variable")
+						continue
+					}
+					var before []core.Point
+					for _, w := range writes {
+						if persisted(w) == v {
+							before = append(before, w.Pt)
+						}
+					}
+					ok := len(before) > 0
+					if ok {
+						// the write precedes the point where the value is taken, or lies between it and the site
+						ok, _ = f.MustPassBefore(before, d.Pt)
+						if !ok && d.Pt != r.Pt {
+							ok, _ = f.MustPassBetween(d.Pt, before, r.Pt)
+						}
+					}
+					c.Check(ok, name+"|validators given to "+short(r.Name)+" were persisted first", "T2 Dominates", r.Pos(), "the epoch state holding these validators is stored before the election is reset with them", name+" resets the election with validators that are not the persisted ones at that point: a restart at the next boundary builds a different election")
 				}
-				ok := len(before) > 0
-				if ok {
-					ok, _ = f.MustPassBefore(before, r.Pt)
-				}
-				c.Check(ok, name+"|validators given to "+short(r.Name)+" were persisted first", "T2 Dominates", r.Pos(), "the epoch state holding these validators is stored before the election is reset with them", name+" resets the election with validators that are not the persisted ones at that point: a restart at the next boundary builds a different election")
 			}
 		}
-		c.ExpectAtLeast("election construction/reset sites", nElec, 3)
+		// a function outside the store that may persist an epoch state without owning the election must be
+		// reached only from functions that are judged above (its callers, transitively): an entry point
+		// that persists validators and never touches the election leaves the running election on the old set
+		callers := map[*core.FuncInfo][]*core.FuncInfo{}
+		for _, g := range all {
+			for _, cs := range g.Calls() {
+				if fn, isF := cs.Callee.(*types.Func); isF {
+					if h := p.FuncOf(fn); h != nil && h != g {
+						callers[h] = append(callers[h], g)
+					}
+				}
+			}
+		}
+		for _, g := range all {
+			if owner[g] || g.Obj == nil || g.RecvTypeName() == "abft.Store" || !mayWrite(g, 2) {
+				continue
+			}
+			covered := false
+			seenC := map[*core.FuncInfo]bool{g: true}
+			work := []*core.FuncInfo{g}
+			for len(work) > 0 && !covered {
+				h := work[0]
+				work = work[1:]
+				for _, cl := range callers[h] {
+					top := cl
+					for top.Parent != nil {
+						top = top.Parent
+					}
+					if owner[cl] || owner[top] {
+						covered = true
+						break
+					}
+					if !seenC[cl] {
+						seenC[cl] = true
+						work = append(work, cl)
+					}
+				}
+			}
+			c.Check(covered, short(g.Name)+"|persists an epoch state under an owner of the election", "T6 WhoMayCall", g.Pos(), "reached only below a function that (re)sets the election", short(g.Name)+" can persist a new epoch state (validators) but neither it nor any caller resets the election: the running instance keeps electing with the previous validators while a restarted one builds the election from the persisted ones")
+		}
+		// vacuity only: one site of each role (construction on restart, reset while running)
+		c.ExpectAtLeast("election construction sites", nNew, 1)
+		c.ExpectAtLeast("election reset sites", nElec, 1)
 	})
 }
